@@ -137,6 +137,29 @@ pub fn run() {
                 }
                 json!({"rounds": rounds, "ok": oks, "err": errs, "signals": signals, "hangs": hangs})
             },
+            // the receiving end arrived inside a message (taken out with a non-blocking receive); a child is exec'd while it is alive
+            // and outlives it; once the program drops it, it must no longer exist anywhere: sends fail
+            "execchild" => {
+                let (tx1, rx1) = platform::channel().unwrap();
+                let (tx2, rx2) = platform::channel().unwrap();
+                let carrier = res_str(tx1.send(b"carrier", vec![OsIpcChannel::Receiver(rx2)], vec![]).map_err(std::io::Error::from));
+                let how = a.get("proc").map(|s| s.as_str() == "1").unwrap_or(false);
+                let got = if how { rx1.try_recv_timeout(std::time::Duration::from_millis(500)) } else { rx1.try_recv() };
+                let mut out = json!({"carrier": carrier, "unpacked": false});
+                if let Ok((_, mut ch, _)) = got {
+                    let r2 = ch[0].to_receiver();
+                    let mut child = std::process::Command::new("/bin/sleep").arg("5").spawn().unwrap();
+                    std::thread::sleep(std::time::Duration::from_millis(30));
+                    drop(r2);
+                    let data = tagged(2, 1, len);
+                    let r = with_watchdog(4_000, move || res_str(tx2.send(&data, vec![], vec![]).map_err(std::io::Error::from)));
+                    let _ = child.kill();
+                    let _ = child.wait();
+                    out = json!({"carrier": carrier, "unpacked": true, "send": r.unwrap_or_else(|| "hang".into())});
+                }
+                drop(tx1);
+                out
+            },
             // receiver rx2 travels inside an undelivered message on channel 1; sends to it must succeed
             "transit" => {
                 let (tx1, rx1) = platform::channel().unwrap();
